@@ -164,13 +164,34 @@ def run(call: GeneratorCall) -> Module:
     # This is helpful even if (especially if) we find it's a circular dependency next.
     the_cache.stack.append(call)
 
+    # The cache outlives this call, and any exception it ends with, not least one raised by the generator-function.
+    # `call` is on the `stack` and `pending` only while it is running, however that run ends.
+    try:
+        if call.gen.enable_cache:
+            # Check for circular dependencies.
+            # Note this uses a hash-set of `GeneratorCall`s, so only hashable ones get checked.
+            if call in the_cache.pending:
+                msg = f"Invalid self referencing/ circular dependency in `{call}`"
+                raise RuntimeError(msg)
+            the_cache.pending.add(call)
+        try:
+            m = _generate(call)
+        finally:
+            if call.gen.enable_cache:
+                the_cache.pending.remove(call)
+    finally:
+        the_cache.stack.pop()
+
+    # Store the result in our cache
     if call.gen.enable_cache:
-        # Check for circular dependencies.
-        # Note this uses a hash-set of `GeneratorCall`s, so only hashable ones get checked.
-        if call in the_cache.pending:
-            msg = f"Invalid self referencing/ circular dependency in `{call}`"
-            raise RuntimeError(msg)
-        the_cache.pending.add(call)
+        the_cache.done[call] = m
+
+    # And return the generated Module
+    return m
+
+
+def _generate(call: GeneratorCall) -> Module:
+    """Run the generator-function of `call`, check and name its result. Helper for `run`."""
 
     # Check that the call has a valid instance of the generator's parameter-class
     if not isinstance(call.params, call.gen.Params):
@@ -203,13 +224,6 @@ def run(call: GeneratorCall) -> Module:
         if hasparams(call.gen.Params):
             m.name += "(" + _unique_name(call.params) + ")"
 
-    # Store the result in our cache, and on the Call.
-    the_cache.stack.pop()
-    if call.gen.enable_cache:
-        the_cache.pending.remove(call)
-        the_cache.done[call] = m
-
-    # And return the generated Module
     return m
 
 
